@@ -149,6 +149,7 @@ func (cx *Ctx) checkXSBool(r *Report, rule string, only map[string]bool) {
 
 func checkC05(cx *Ctx, r *Report) {
 	w, fx := cx.W, cx.Fx
+	cx.checkVerifiedOctetsOfParams(r)
 	// storage is asked with the request's context (which carries the issuer / tenant in effect): keys, providers and
 	// users are those of this request
 	cx.checkStorageContext(r)
@@ -827,4 +828,40 @@ func (cx *Ctx) checkSigningCertsOnly(r *Report) {
 		}
 	}
 	r.Check(bad == "" && len(appends) > 0, "R-GUARD", "GetCertsFromKeyDescriptors:signing-only", w.FnPos(gc), fmt.Sprintf("%d append site(s), each under use == \"\" or use == \"signing\"", len(appends)), bad+": a request signed with a key the service provider did not publish for signing is accepted")
+}
+
+// checkVerifiedOctetsOfParams: inside ValidateRedirectSignature what is verified is built from the values the
+// function was given - through the encoding steps only (QueryEscape, formatting, concatenation). A trimmed, folded
+// or otherwise rewritten copy that is verified instead (or as a second try) is not what the handler goes on to use:
+// a message the service provider did not sign passes.
+func (cx *Ctx) checkVerifiedOctetsOfParams(r *Report) {
+	w := cx.W
+	vr := w.Func("serviceprovider.(*ServiceProvider).ValidateRedirectSignature")
+	if vr == nil {
+		r.Fail("R-VFG", "ValidateRedirectSignature:octets-of-params", "", "anchor not found")
+		return
+	}
+	lvf := cx.newVFlow("ValidateRedirectSignature:params", vr)
+	n := 0
+	for _, idx := range []int{0, 1} {
+		ls, sites := lvf.CallArgSources(matchFnKey(w, "signature.ValidateRedirect"), idx)
+		if len(sites) == 0 {
+			continue
+		}
+		n++
+		var extra []string
+		for _, l := range lvf.Deep(ls).keys() {
+			if strings.HasPrefix(l, "via:") {
+				switch l {
+				case "via:url.QueryEscape", "via:fmt.Sprintf", "via:concat", "via:strings.Builder", "via:strings.Join":
+				default:
+					extra = append(extra, l)
+				}
+			}
+		}
+		r.Check(len(extra) == 0, "R-VFG", fmt.Sprintf("ValidateRedirectSignature:octets-of-params#%d", idx), w.InstrPos(sites[0]), "built from the function's parameters through the encoding steps only", "what is verified is a rewritten copy of the values the function was given ("+strings.Join(extra, ", ")+"): a signature over other octets than the ones the handler uses is accepted")
+	}
+	if n == 0 {
+		r.Fail("R-VFG", "ValidateRedirectSignature:octets-of-params", w.FnPos(vr), "the redirect verifier is no longer called")
+	}
 }
